@@ -38,8 +38,22 @@ def hunt5_rules(chk, repo):
     prep = [n for n in gf.nodes if n.in_finally_copy is None and isinstance(getattr(n, "ast", None), ast.AST) and n.kind == "stmt" and K.node_has(n, "await prepare_meth($R)")]
     fcl = [n for n in gf.nodes if n.kind == "stmt" and isinstance(getattr(n, "ast", None), ast.AST) and K.node_has(n, "resp.force_close()")]
     def staying(a, b, k):
-        t = norm.raw(a.ast) if a.kind == "test" else ""
-        return a.kind == "test" and k == "F" and "self._close" in t and "self._force_close" in t
+        # the false branch of a test that is true whenever the connection is marked for closing (by close() or by force_close())
+        if a.kind != "test" or k != "F":
+            return False
+        import itertools
+        from sa.dtable import Evaluator
+        try:
+            e = norm.subst(a.ast, a.ast)
+        except Exception:
+            e = a.ast
+        t = norm.raw(e)
+        if "self._close" not in t or "self._force_close" not in t:
+            return False
+        try:
+            return all(bool(Evaluator({"self._close": c_, "self._force_close": f_}).ev(e)) for c_, f_ in itertools.product((False, True), repeat=2) if c_ or f_)
+        except Exception:
+            return False
     if not prep:
         chk.analysis_error("C20.announce: `await prepare_meth(request)` not found in RequestHandler.finish_response")
     else:
